@@ -857,7 +857,7 @@ impl Prop for C01 {
     }
     fn assumptions(&self) -> Vec<&'static str> {
         vec![
-            "a field is 'bound to the XML name' if its serde name equals the local or the full name (either accepted, so the check cannot demand more than the statement)",
+            "a field is 'bound to the XML name' through the name the quick-xml preset documents and C03 fixes: the local name for elements, `@` + local name for attributes (`xmlns:*` keeps its prefix)",
             "generated DOM == what the reader sees (cross-checked every run, else harness error)",
         ]
     }
@@ -876,7 +876,17 @@ impl Prop for C09 {
     }
     fn gen(&self, seed: u64) -> Scenario {
         let mut rng = Rng::new(seed);
-        Scenario::Session(gen_session(&mut rng, false, false))
+        let mut s = gen_session(&mut rng, false, false);
+        // a caller may set the text identifier itself (a public field): the orders must not depend on it
+        if rng.chance(1, 3) {
+            let id = rng.pick(&["#body", "zz#", "A#", "m#text", "#", "~"]).to_string();
+            for by_name in [false, true] {
+                let mut o = RenderOpt::preset(false, by_name, "");
+                o.text_identifier = Some(id.clone());
+                s.opts.push(o);
+            }
+        }
+        Scenario::Session(s)
     }
     fn exec(&self, sc: &Scenario, ctr: &mut Ctr) -> Result<Exec, String> {
         let Scenario::Session(s) = sc else { return Ok(super::skip("not_a_session")) };
@@ -927,7 +937,44 @@ impl Prop for C09 {
                     .or_else(|| cmp_struct_order(obs, &m, false, &whole_u))
                     .or_else(|| cmp_field_order(obs_n, &m, true, ""))
                     .or_else(|| cmp_struct_order(obs_n, &m, true, &whole_n))
-                    .or_else(|| cmp_same_content(&whole_u, &whole_n));
+                    .or_else(|| cmp_same_content(&whole_u, &whole_n))
+                    .or_else(|| {
+                        // renderings under a caller-set text identifier: field for field what the preset with the same
+                        // sort option gives, except for the name the text field is bound to
+                        for (oi, opt) in s.opts.iter().enumerate().skip(2) {
+                            let Some(id) = &opt.text_identifier else { continue };
+                            if opt.serde_xml_rs || opt.attribute_prefix.is_some() || so.renders.len() <= oi {
+                                continue;
+                            }
+                            bump(ctr, "rendering_with_caller_text_identifier");
+                            let blocks = match crate::observe::parse_blocks_with(&so.renders[oi], id) {
+                                Ok(b) => b,
+                                Err(e) => return Some(("rendering_unparseable".to_string(), format!("with text identifier {id:?}: {e}"))),
+                            };
+                            let reference = if opt.by_name { &whole_n } else { &whole_u };
+                            let norm = |b: &crate::observe::Block| -> Vec<(crate::observe::Kind, String, bool, bool, String)> {
+                                b.fields
+                                    .iter()
+                                    .map(|f| {
+                                        let serde = if f.kind == crate::observe::Kind::Text { String::new() } else { f.serde.clone() };
+                                        (f.kind.clone(), serde, f.opt, f.vec, f.ty.clone())
+                                    })
+                                    .collect()
+                            };
+                            if blocks.len() != reference.len() {
+                                return Some(("override_changes_structs".to_string(), format!("text identifier {id:?}: {} structs instead of {}", blocks.len(), reference.len())));
+                            }
+                            for (b, r) in blocks.iter().zip(reference.iter()) {
+                                if b.name != r.name || norm(b) != norm(r) {
+                                    return Some((
+                                        "override_changes_order".to_string(),
+                                        format!("text identifier {id:?} (by_name={}): {:?} instead of {:?}", opt.by_name, b.lines, r.lines),
+                                    ));
+                                }
+                            }
+                        }
+                        None
+                    });
                 if let Some((class, detail)) = f {
                     violation = Some(Violation { class, detail: format!("replica {} ({ri}) after step {si}: {detail}", r.role) });
                     break 'outer;
